@@ -1,7 +1,7 @@
 """C07 - all instruction tables agree on length, mnemonic and timing of every opcode.
 
 Complete enumeration of the opcode space: every first/second/fourth opcode byte
-under every prefix, two operand fillings, every additional-opcode setting, at
+under every prefix, four operand fillings, every additional-opcode setting, at
 0x8000 and at the four addresses next to the 64K boundary (Wrap 0/1).
 Observers: skool disassembler (disassembler.py), trace disassembler
 (traceutils), sna2ctl decoder (opcodes.decode), z80.get_timing, the four
@@ -25,7 +25,7 @@ ASSUMPTIONS = [
 
 OPCODE_CFGS = ('', 'ALL', 'ED63', 'ED6B', 'ED70', 'ED71', 'IM', 'NEG', 'RETN', 'XYCB')
 GROUPS = ('main', 'CB', 'ED', 'DD', 'FD', 'DDCB', 'FDCB')
-FILLS = ((0x12, 0x34, 0x56), (0xFB, 0x80, 0xC9))
+FILLS = ((0x12, 0x34, 0x56), (0xFB, 0x80, 0xC9), (0x80, 0x7F, 0xFF), (0x7F, 0x81, 0x00))      # incl. the extreme displacements -128 and +127
 ADDRS = (0x8000, 0xFFFC, 0xFFFD, 0xFFFE, 0xFFFF)
 
 # three CPU states that between them take both outcomes of every conditional /
@@ -334,5 +334,5 @@ def known_class(sig, case):
 MANIFEST_ENTRY = {
     'technique': 'exhaustive enumeration of the opcode space with pairwise differential oracles (3 decoders, timing table, 4 simulators) and an independent reference interpreter',
     'level_text': 'Complete enumeration of all 1792 opcode slots x 2 operand fillings x 5 addresses (incl. the 64K boundary) x 10 additional-opcode settings x Wrap 0/1: lengths, mnemonics, timing-table entries and simulator PC/T deltas are compared pairwise and against ref/z80ref; the space is finite and covered completely, so exploration is exhaustive for table contents.',
-    'level_note': 'Trusted: ref/z80ref.py (self-tested against Zilog-manual values by setup.sh). Operand bytes are sampled with two fillings (operand values do not select table slots).',
+    'level_note': 'Trusted: ref/z80ref.py (self-tested against Zilog-manual values by setup.sh). Operand bytes are sampled with four fillings incl. the extreme displacements (operand values do not select table slots).',
 }
